@@ -33,6 +33,7 @@ type Engine struct {
 	loadSecs      float64
 	initOnce      sync.Once
 	inits         map[*types.Var]constant.Value
+	initCalls     map[*types.Var]*initCall
 	contractFiles []string
 }
 
@@ -148,6 +149,7 @@ func (fc *FuncContract) keys() []string {
 func (eng *Engine) globalInit(v *types.Var) (constant.Value, bool) {
 	eng.initOnce.Do(func() {
 		eng.inits = map[*types.Var]constant.Value{}
+		eng.initCalls = map[*types.Var]*initCall{}
 		for _, p := range eng.pkgs {
 			for _, f := range p.Syntax {
 				for _, d := range f.Decls {
@@ -167,6 +169,35 @@ func (eng *Engine) globalInit(v *types.Var) (constant.Value, bool) {
 							}
 							if tv, ok := p.TypesInfo.Types[vs.Values[i]]; ok && tv.Value != nil {
 								eng.inits[obj] = tv.Value
+								continue
+							}
+							// var X = pkg.Func(constants...): remembered as a call; usable when Func is pure
+							if ce, ok := vs.Values[i].(*ast.CallExpr); ok {
+								var fobj *types.Func
+								switch fx := ce.Fun.(type) {
+								case *ast.Ident:
+									fobj, _ = p.TypesInfo.Uses[fx].(*types.Func)
+								case *ast.SelectorExpr:
+									fobj, _ = p.TypesInfo.Uses[fx.Sel].(*types.Func)
+								}
+								if fobj == nil {
+									continue
+								}
+								var cargs []constant.Value
+								var ctys []types.Type
+								okc := true
+								for _, a := range ce.Args {
+									tv, ok := p.TypesInfo.Types[a]
+									if !ok || tv.Value == nil {
+										okc = false
+										break
+									}
+									cargs = append(cargs, tv.Value)
+									ctys = append(ctys, tv.Type)
+								}
+								if okc {
+									eng.initCalls[obj] = &initCall{fn: fobj, args: cargs, tys: ctys}
+								}
 							}
 						}
 					}
@@ -176,6 +207,17 @@ func (eng *Engine) globalInit(v *types.Var) (constant.Value, bool) {
 	})
 	c, ok := eng.inits[v]
 	return c, ok
+}
+
+type initCall struct {
+	fn   *types.Func
+	args []constant.Value
+	tys  []types.Type
+}
+
+func (eng *Engine) globalInitCall(v *types.Var) *initCall {
+	eng.globalInit(v)
+	return eng.initCalls[v]
 }
 
 func (eng *Engine) contractByKey(k string) *FuncContract { return eng.byKey[k] }
